@@ -86,6 +86,9 @@ type Router struct {
 	// sync (optional) builds headers that the router's syncBlockHeader accepts after build(p) was
 	// installed as genesis, so that later genesis attempts meet a light client that has moved on.
 	Sync func(p Params, rng *rand.Rand) ([][]byte, error)
+	// Probe (optional) builds follow-up headers that reach the router's header verification after
+	// Build(p) was installed but are not expected to be accepted (workloads only; C19 does not use it).
+	Probe func(p Params, rng *rand.Rand) ([][]byte, error)
 }
 
 func rb(rng *rand.Rand, n int) []byte {
@@ -214,6 +217,23 @@ func buildBor(p Params) ([]byte, error) {
 	h := polyEthHeader(p, s, cliqueExtra(s, nil))
 	g := polygon.HeaderWithOptionalSnap{Header: h, Snapshot: &polygon.Snapshot{Hash: h.Hash(), ValidatorSet: polygon.NewValidatorSet(vals)}}
 	return json.Marshal(g)
+}
+
+// probeBor: a child of the genesis header (parent hash = hash of the installed header), which gets
+// as far as bor's verifyHeader; it carries no valid seal, so it is refused there.
+func probeBor(p Params, rng *rand.Rand) ([][]byte, error) {
+	s := saltOf(p)
+	parent := polyEthHeader(p, s, cliqueExtra(s, nil))
+	q := p
+	q.Height = p.Height + 1
+	child := polyEthHeader(q, rng, cliqueExtra(rng, nil))
+	child.ParentHash = parent.Hash()
+	child.Time = parent.Time + 2
+	b, err := json.Marshal(polygon.HeaderWithOptionalProof{Header: child})
+	if err != nil {
+		return nil, err
+	}
+	return [][]byte{b}, nil
 }
 
 func tmTime(s *rand.Rand) time.Time {
@@ -579,7 +599,7 @@ func Routers() []Router {
 		{Name: "pixiechain", ID: utils.PIXIECHAIN_ROUTER, Extra: mustJSON(map[string]interface{}{"ChainID": 6626, "Period": 3}), MinH: 1, HStep: 1, SpanH: 10000000, Build: buildPixie},
 		{Name: "bytom", ID: utils.BYTOM_ROUTER, Extra: chainID(188), MinH: 200, HStep: 200, SpanH: 100000, Build: buildBytom},
 		{Name: "msc", ID: utils.MSC_ROUTER, Extra: mustJSON(map[string]interface{}{"ChainID": 1001, "Period": 3, "Epoch": mscEpoch}), MinH: 0, HStep: mscEpoch, SpanH: 100000, Build: buildMSC},
-		{Name: "bor", ID: utils.POLYGON_BOR_ROUTER, Extra: mustJSON(polygon.ExtraInfo{Sprint: 64, Period: 2, ProducerDelay: 6, BackupMultiplier: 2, HeimdallPolyChainID: 99}), MinH: 0, HStep: 64, SpanH: 400000, Build: buildBor},
+		{Name: "bor", ID: utils.POLYGON_BOR_ROUTER, Extra: mustJSON(polygon.ExtraInfo{Sprint: 64, Period: 2, ProducerDelay: 6, BackupMultiplier: 2, HeimdallPolyChainID: 99}), MinH: 0, HStep: 64, SpanH: 400000, Build: buildBor, Probe: probeBor},
 		{Name: "heimdall", ID: utils.POLYGON_HEIMDALL_ROUTER, MinH: 1, HStep: 1, SpanH: 9000000, Build: buildHeimdall},
 		{Name: "cosmos", ID: utils.COSMOS_ROUTER, MinH: 1, HStep: 1, SpanH: 9000000, Build: buildCosmos, Sync: syncCosmos},
 		{Name: "okex", ID: utils.OKEX_ROUTER, MinH: 1, HStep: 1, SpanH: 9000000, Build: buildOkex},
